@@ -14,6 +14,7 @@ IsEvent(k) == l <= Len(Trace) /\ Ev.k = k /\ Ev.abn = "" /\ l' = l + 1
 DefaultVer == <<49, 46, 48, 46, 48>>      \* "1.0.0"
 
 TraceStream == IsEvent("Stream") /\ Stream(Ev.bytes)
+TraceRewind == IsEvent("Rewind") /\ Rewind
 
 TraceMarshal ==
     /\ IsEvent("Marshal")
@@ -45,6 +46,6 @@ TraceReadHeader ==
     /\ ReadHeader(Avail, Ev.fault, [n |-> Ev.n, err |-> Ev.err, ver |-> Ev.ver, hsize |-> Ev.hsize, bsize |-> Ev.bsize])
 
 TraceInit == wire = <<>> /\ rpos = 0 /\ good = {} /\ l = 1
-TraceNext == TraceStream \/ TraceMarshal \/ TraceUnmarshal \/ TraceReadHeader
+TraceNext == TraceStream \/ TraceRewind \/ TraceMarshal \/ TraceUnmarshal \/ TraceReadHeader
 TraceSpec == TraceInit /\ [][TraceNext]_tvars
 =============================================================================
